@@ -11,7 +11,7 @@ from fractions import Fraction
 import numpy as np
 import z3
 
-from symtm import core, tensor as T, harness
+from symtm import core, tensor as T, harness, nn
 from symtm.core import ite, s_and, s_or, s_not, s_sum
 from . import common as C, dl
 
@@ -34,13 +34,20 @@ def replay(r):
     ns = len(r["refs"][0])
     for _ in range(25):
         cases.append(([rnd.choice(seqs) for _ in r["x"]], [[rnd.choice(seqs) for _ in range(ns)] for _ in r["x"]]))
+    extra = {"n_shuffles": r["n_shuffles_arg"]} if r.get("n_shuffles_arg") else {}
     for x, refs in cases:
         X = C.real_onehot(x, A).double()
         R = C.real_onehot(refs, A).double()
         try:
-            mult = deep_lift_shap(model, X, references=R, target=target, device="cpu", raw_outputs=True, batch_size=r.get("batch_size", 32), warning_threshold=1e9)
-            attr = deep_lift_shap(model, X, references=R, target=target, device="cpu", batch_size=r.get("batch_size", 32), warning_threshold=1e9)
-            hyp = deep_lift_shap(model, X, references=R, target=target, device="cpu", hypothetical=True, batch_size=r.get("batch_size", 32), warning_threshold=1e9)
+            if r.get("history_ops"):
+                other = dl.real_model(arch, A, L, seed=5)
+                act_cls = [type(m_) for m_ in other if not isinstance(m_, (torch.nn.Linear, torch.nn.Conv1d, torch.nn.Flatten, torch.nn.AvgPool1d, torch.nn.MaxPool1d))][0]
+                deep_lift_shap(other, X, references=R, target=target, device="cpu", warning_threshold=1e9, additional_nonlinear_ops={act_cls: (lambda mod, gi, go: gi)})
+            mult = deep_lift_shap(model, X, references=R, target=target, device="cpu", raw_outputs=True, batch_size=r.get("batch_size", 32), warning_threshold=1e9, **extra)
+            attr = deep_lift_shap(model, X, references=R, target=target, device="cpu", batch_size=r.get("batch_size", 32), warning_threshold=1e9, **extra)
+            hyp = deep_lift_shap(model, X, references=R, target=target, device="cpu", hypothetical=True, batch_size=r.get("batch_size", 32), warning_threshold=1e9, **extra)
+            if tuple(mult.shape[:2]) != (len(x), ns):
+                return True, "raw multipliers have shape %s for %d references per example" % (tuple(mult.shape), ns)
         except Exception as e:
             return True, "deep_lift_shap raised %s: %s" % (type(e).__name__, e)
         for i in range(len(x)):
@@ -72,10 +79,16 @@ def worker(cfg):
         net = dl.build(arch, A, L, seed=cfg.get("seed", 1), symbolic_weights=cfg.get("symw", False), NN=NN)
         xc, X, rc, R = dl.sym_inputs(ctx, A, L, B, ns)
         rp = lambda m: dict(cfg, x=C.eval_chars(m, xc), refs=C.eval_chars(m, rc))
+        extra = {"n_shuffles": cfg["n_shuffles_arg"]} if cfg.get("n_shuffles_arg") else {}          # must be ignored for a reference tensor
         try:
-            mult = dls.deep_lift_shap(net, X, references=R, target=target, batch_size=cfg.get("batch_size", 32), device="cpu", raw_outputs=True)
-            attr = dls.deep_lift_shap(net, X, references=R, target=target, batch_size=cfg.get("batch_size", 32), device="cpu")
-            hyp = dls.deep_lift_shap(net, X, references=R, target=target, batch_size=cfg.get("batch_size", 32), device="cpu", hypothetical=True)
+            if cfg.get("history_ops"):
+                # an earlier call on ANOTHER model with a custom rule for the activation must not influence later calls
+                other = dl.build(arch, A, L, seed=5, NN=NN)
+                act_cls = [type(m_) for m_ in other._modules.values() if type(m_).__name__ in nn.ACT_NAMES][0]
+                dls.deep_lift_shap(other, X, references=R, target=target, device="cpu", additional_nonlinear_ops={act_cls: (lambda mod, gi, go: gi)})
+            mult = dls.deep_lift_shap(net, X, references=R, target=target, batch_size=cfg.get("batch_size", 32), device="cpu", raw_outputs=True, **extra)
+            attr = dls.deep_lift_shap(net, X, references=R, target=target, batch_size=cfg.get("batch_size", 32), device="cpu", **extra)
+            hyp = dls.deep_lift_shap(net, X, references=R, target=target, batch_size=cfg.get("batch_size", 32), device="cpu", hypothetical=True, **extra)
         except Exception as e:
             if isinstance(e, core.Inconclusive):
                 raise
@@ -142,7 +155,8 @@ def configs(tier):
     q = tier == "quick"
     cf = [dict(arch="dense1", A=2, L=3, B=1, ns=1, target=1), dict(arch="dense1", A=2, L=2, B=2, ns=2, target=0, batch_size=3),
           dict(arch="conv", A=2, L=2, B=1, ns=2, target=1), dict(arch="affine", A=2, L=3, B=1, ns=2, target=0, symw=True),
-          dict(arch="dense1w", A=2, L=2, B=1, ns=1, target=0)]
+          dict(arch="dense1w", A=2, L=2, B=1, ns=1, target=0), dict(arch="dense1", A=2, L=2, B=1, ns=2, target=1, n_shuffles_arg=1),
+          dict(arch="dense1", A=2, L=2, B=1, ns=1, target=0, history_ops=True)]
     if not q:
         cf += [dict(arch="conv", A=2, L=3, B=1, ns=1, target=1), dict(arch="convavg", A=2, L=3, B=1, ns=1, target=1),
                dict(arch="dense1w", A=2, L=3, B=1, ns=1, target=0), dict(arch="convpad", A=2, L=3, B=1, ns=1, target=1),
